@@ -39,7 +39,7 @@ checks = []
 for p in props:
     c = CLAIMS.get(p['id'])
     if not c: continue
-    checks.append({'property_id': p['id'], 'quick_cmd': './check %s --tier quick' % p['id'], 'thorough_cmd': './check %s --tier thorough' % p['id'],
+    checks.append({'property_id': p['id'], 'quick_cmd': './check %s --tier quick' % p['id'], 'thorough_cmd': 'XSYM_PORTFOLIO=z3smt,z3new,cvc5 ./check %s --tier thorough' % p['id'],
                    'evidence_file': 'evidence/%s.json' % p['id'], 'replay_cmd_template': './check replay {path}', 'engine': 'xsym',
                    'level_claimed': {'category': 'model_checking', 'text': c['text'], 'design_ref': 'DESIGN.md section ' + c['ref']},
                    'level_note': c['note'], 'technique': TECH})
